@@ -196,6 +196,11 @@ fn wait_line(slot: &mut Option<ApiChild>, limit: Duration) -> Result<Value, Clas
   }
 }
 
+thread_local! {
+  /// file to connect to the standard input of the next CLI child of this worker thread
+  static STDIN_FILE: std::cell::RefCell<Option<PathBuf>> = const { std::cell::RefCell::new(None) };
+}
+
 /// run the real CLI once; `files` are written below a fresh scratch directory
 fn cli_job(job: &Value) -> Answer {
   let dir = tempfile::tempdir().expect("tempdir");
@@ -219,6 +224,14 @@ fn cli_job(job: &Value) -> Answer {
     }
   }
   let args: Vec<String> = job["args"].as_array().map(|a| a.iter().map(|x| x.as_str().unwrap_or("").to_string()).collect()).unwrap_or_default();
+  if let Some(input) = job["stdin"].as_str() {
+    // standard input comes from a file (no pipe to feed, no dead-lock)
+    let p = root.join(".agv-stdin");
+    std::fs::write(&p, input).expect("write stdin file");
+    STDIN_FILE.with(|f| *f.borrow_mut() = Some(p));
+  } else {
+    STDIN_FILE.with(|f| *f.borrow_mut() = None);
+  }
   run_cli_class(&args, root)
 }
 
@@ -236,7 +249,10 @@ fn run_cli_class_with(args: &[String], cwd: &Path, limit: Duration) -> Answer {
   let mut child = Command::new(sg_bin())
     .args(args)
     .current_dir(cwd)
-    .stdin(Stdio::null())
+    .stdin(match STDIN_FILE.with(|f| f.borrow().clone()).and_then(|p| std::fs::File::open(p).ok()) {
+      Some(f) => Stdio::from(f),
+      None => Stdio::null(),
+    })
     .stdout(Stdio::null())
     .stderr(Stdio::from(err_file))
     .env("NO_COLOR", "1")
